@@ -3,7 +3,8 @@ import z3
 from pyvc.contracts import Contract, ListOf, Int, Float, Str, Bool, Const
 from pyvc.lib import ArrOf
 from pyvc.smt import And, Or, Not, Implies, Iff, If, Forall, Exists, lift
-from .spec import abbr, hcode, hnum, fmt03, p2o, ln, _rv, _isnan
+from .spec import abbr, hcode, hnum, fmt03, p2o, ln, _rv, _isnan, abbrF, hcodeF
+from pyvc.smt import Sequent, is_sym
 
 PYINT = ('int', 'bool')     # isinstance(x, int) holds exactly for these tags
 
@@ -15,12 +16,32 @@ def _okta2code_raises(val, _ty):
     return Or(v < 0, v > 9)
 
 
+def _abbr_any(v):
+    """abbreviation of okta v: opaque abbrF on symbolic values (definition revealed only where the text matters)"""
+    return abbrF(v) if is_sym(v) else abbr(v)
+
+
 def _okta2code_post(result, val, _ty):
     v = If(val, 1, 0) if _ty['val'] == 'bool' else val
     # 9 -> None ("nothing"), else the abbreviation
     if result is None:
         return {'none_only_for_9': v == 9}
+    if is_sym(v):
+        return {'abbr': Sequent([abbrF(v) == abbr(v)], And(v != 9, result == abbrF(v)))}
     return {'abbr': And(v != 9, result == abbr(v))}
+
+
+def _hcode_any(val):
+    """height code: opaque hcodeF on symbolic values"""
+    if is_sym(_rv(val)) or is_sym(_isnan(val)):
+        return hcodeF(lift(_isnan(val)), lift(_rv(val), z3.RealSort()))
+    return hcode(val)
+
+
+def _height2code_post(result, val):
+    if is_sym(_rv(val)) or is_sym(_isnan(val)):
+        return {'code': Sequent([_hcode_any(val) == hcode(val)], result == _hcode_any(val))}
+    return {'code': result == hcode(val)}
 
 
 def _okta2code_result(name, ctx, val):
@@ -29,7 +50,7 @@ def _okta2code_result(name, ctx, val):
     v = to_int_term(val)
     if ctx.branch(v == 9):
         return None
-    return SStr(abbr(v))
+    return SStr(abbrF(v))
 
 
 def _perc2okta_result(name, ctx, val):
@@ -56,7 +77,7 @@ def register(reg):
         raises={'AmpycloudError': _okta2code_raises},
         ensures=_okta2code_post,
         result=_okta2code_result,
-        canaries={'always_few': lambda result, val: result == 'FEW' if result is not None else False},
+        canaries={'always_few': lambda result, val: (result == 'FEW') if result is not None else False},
         native_call=lambda val: __import__('ampycloud').wmo.okta2code(val),
     ))
 
@@ -66,7 +87,7 @@ def register(reg):
         cases=[('float', {'val': Float(nan=True)}), ('npfloat', {'val': Float(nan=True, ty='npfloat')}),
                ('int', {'val': Int()})],
         result=Str(),
-        ensures=lambda result, val: {'code': result == hcode(val)},
+        ensures=_height2code_post,
         canaries={'round_instead_of_floor': lambda result, val: Implies(
             And(Not(_isnan(val)), _rv(val) >= 0, _rv(val) <= 10000),
             result == fmt03(If(lift(_rv(val), z3.RealSort()) / 100 - z3.ToReal(z3.ToInt(lift(_rv(val), z3.RealSort()) / 100)) < 0.5,
